@@ -95,6 +95,23 @@ def run(tier):
                 v.violation("history %s: after op %d (%s, ok=%d) count=%d iter_count=%d buf_len=%d (before: count=%s buf_len=%s)" % (
                     json.dumps([o["op"] for o in hist]), bad["i"], bad["op"], bad["ok"], bad["count"], bad["iter_count"], bad["buf_len"],
                     prev[0]["count"] if prev else 0, prev[0]["buf_len"] if prev else 0), [{"history": hist}] + prev + [bad])
+    # ---- counts: whole-row binds at the 16-bit limit, vectors with a wrong number of elements, row tuples of another arity
+    import re as _re
+    wout = os.path.join(wd, "whole.ndjson")
+    run_harness("vh-cql", ["c17-whole", "-", wout], timeout=600)
+    wrec = read_ndjson(wout)
+    if len(wrec) < 60:
+        raise ToolError("c17-whole: %d records" % len(wrec))
+    acc, rw, rej = validate_trace("Trace_BindWhole", "Trace_BindWhole.cfg", wout, timeout=300)
+    if not acc:
+        raise ToolError("Trace_BindWhole did not consume its input (line %s)" % rej)
+    for b in sorted({int(m.group(1)) - 1 for m in _re.finditer(r'<<"BAD", (\d+)>>', rw.out)})[:10]:
+        x = wrec[b]
+        what = {"row": "a whole row of %s values bound at once" % x.get("n"),
+                "vec": "a sequence of %s %s elements bound to vector<%s, %s>" % (x.get("len"), x.get("elem"), x.get("elem"), x.get("d")),
+                "rowtc": "a row of %s columns read into a tuple of arity %s" % (x.get("cols"), x.get("arity"))}[x["kind"]]
+        v.violation("%s: %s" % (what, json.dumps({k: x[k] for k in x if k not in ("kind",)})), [x])
+    v.add(count_relations=len(wrec))
     mism = sum(1 for c in cells if c["ser_ok"] == 0)
     v.add(evaluations=len(cells) + len(recs), distinct_nontrivial=len(cells) + len(hists),
           rule="evaluation = one matrix cell (carrier family x column type, both directions) or one operation of a rollback history; "
